@@ -77,10 +77,16 @@ PushFrame(r, round) == <<26, 51, 255, round, 0, 0, 0, r, 40>> \o PushPayload(r, 
 StepKinds == <<"new", "new", "new", "dupother", "dupother", "dupother", "dupother", "dupsame", "bad", "modeac", "status">>
 GapBag == <<"zero", "dup", "dup", "mid", "mid", "far">>
 ChunkBag == <<"whole", "whole", "dribble", "esc", "k7", "straddle">>
-(* the reference position of a receiver (`@lat,lon` of its source string); "" = none. *)
-(* main.rs picks the reference for decode_position from the record's first reception. *)
-RefBag == <<"", "", "43.6,1.36", "48.7,2.38">>
-FilterClasses == <<"absent", "absent", "absent", "absent", "some", "some", "some", "empty", "other">>
+(* the reference position of a receiver (`@lat,lon` of its source string, or   *)
+(* latitude / longitude of its TOML entry) in micro-degrees; has = FALSE: none. *)
+(* main.rs picks the reference for decode_position from the record's first      *)
+(* reception; /sensors shows it.  Zero coordinates are legitimate (Greenwich,   *)
+(* the equator).                                                                *)
+NoRef == [has |-> FALSE, lat |-> 0, lon |-> 0]
+Ref(la, lo) == [has |-> TRUE, lat |-> la, lon |-> lo]
+RefBag == <<NoRef, NoRef, NoRef, Ref(43600000, 1360000), Ref(48700000, 2380000), Ref(51477900, 0),
+            Ref(0, 36820000), Ref(0, 0), Ref(-33946000, 151177000)>>
+FilterClasses == <<"absent", "absent", "absent", "absent", "some", "some", "some", "empty", "other", "unknown">>
 
 (* ---------------------------------------------------------------------- *)
 (* Fixed scenarios (GEN_FIXED=1, printed at constant level): shapes that   *)
@@ -93,45 +99,65 @@ FilterClasses == <<"absent", "absent", "absent", "absent", "some", "some", "some
 (*     one record of three receptions                                        *)
 (*  F5, F6 mixed set-ups (receivers with and without a reference position):   *)
 (*     airborne / surface / DF18 position frames, even and odd, heard first   *)
-(*     by the receiver WITHOUT a reference and first by the one WITH one       *)
+(*     by the receiver WITHOUT a reference and first by the one WITH one;      *)
+(*     references with a zero coordinate                                       *)
+(*  F7, F8 a df filter made only of values no downlink format has (CLI, TOML): *)
+(*     nothing may be printed                                                  *)
+(*  F9 an aircraft filter that hides DF17 / DF20 records which have certainly  *)
+(*     left the dedup stage: they are in the table, never in a history         *)
 (* ---------------------------------------------------------------------- *)
 St(r, s, c, pay, dec, g) == [rx |-> r, fr |-> Frame(TypeFor(pay), s, c, pay), dec |-> dec, gap |-> g]
 FixedPush(n) == [round \in 1..3 |-> [r \in 1..n |-> PushFrame(r, round)]]
 Absent0 == <<>>
 Fixed == <<
   [w |-> 0, nrx |-> 2, via |-> "cli", df_present |-> FALSE, df_list |-> <<>>, ac_present |-> FALSE, ac_list |-> <<>>,
-   chunk |-> <<"whole", "esc">>, ref |-> <<"", "">>,
+   chunk |-> <<"whole", "esc">>, ref |-> <<NoRef, NoRef>>,
    steps |-> << St(1, 1, 0, Pool[1], TRUE, "zero"), St(2, 2, 3, Pool[1], TRUE, "dup"),
                 St(1, 3, 1, Pool[4], TRUE, "mid"), St(2, 4, 2, Pool[4], TRUE, "zero") >>,
    push |-> FixedPush(2)],
   [w |-> 120, nrx |-> 2, via |-> "cli", df_present |-> FALSE, df_list |-> <<>>, ac_present |-> FALSE, ac_list |-> <<>>,
-   chunk |-> <<"dribble", "whole">>, ref |-> <<"43.6,1.36", "48.7,2.38">>,
+   chunk |-> <<"dribble", "whole">>, ref |-> <<Ref(43600000, 1360000), Ref(-33946000, 151177000)>>,
    steps |-> << St(1, 1, 4, Pool[2], TRUE, "zero"), St(2, 2, 0, Pool[9], TRUE, "far"),
                 St(2, 3, 5, Pool[2], TRUE, "far") >>,
    push |-> FixedPush(2)],
   [w |-> 200, nrx |-> 1, via |-> "toml", df_present |-> TRUE, df_list |-> <<17>>, ac_present |-> FALSE, ac_list |-> <<>>,
-   chunk |-> <<"k7">>, ref |-> <<"43.6,1.36">>,
+   chunk |-> <<"k7">>, ref |-> <<Ref(0, 0)>>,
    steps |-> << St(1, 1, 2, Pool[15], TRUE, "zero"), St(1, 2, 0, Pool[1], TRUE, "far"),
                 St(1, 3, 0, Pool[4], TRUE, "far") >>,
    push |-> FixedPush(1)],
   [w |-> 200, nrx |-> 2, via |-> "cli", df_present |-> FALSE, df_list |-> <<>>, ac_present |-> FALSE, ac_list |-> <<>>,
-   chunk |-> <<"straddle", "esc">>, ref |-> <<"", "43.6,1.36">>,
+   chunk |-> <<"straddle", "esc">>, ref |-> <<NoRef, Ref(43600000, 1360000)>>,
    steps |-> << St(1, 1, 1, Pool[6], TRUE, "zero"), St(2, 2, 3, Pool[6], TRUE, "dup"),
                 St(2, 3, 0, BadPool[1], FALSE, "zero"), St(1, 4, 2, Pool[6], TRUE, "mid") >>,
    push |-> FixedPush(2)],
   [w |-> 200, nrx |-> 2, via |-> "cli", df_present |-> FALSE, df_list |-> <<>>, ac_present |-> FALSE, ac_list |-> <<>>,
-   chunk |-> <<"whole", "whole">>, ref |-> <<"", "43.6,1.36">>,
+   chunk |-> <<"whole", "whole">>, ref |-> <<NoRef, Ref(51477900, 0)>>,
    steps |-> << St(1, 1, 0, Pool[2], TRUE, "zero"), St(2, 2, 0, Pool[2], TRUE, "dup"),        \* airborne even: unlocated first
                 St(2, 3, 0, Pool[22], TRUE, "far"), St(1, 4, 1, Pool[22], TRUE, "dup"),        \* surface odd: located first
                 St(1, 5, 0, Pool[13], TRUE, "far"), St(2, 6, 3, Pool[13], TRUE, "dup"),        \* DF18 position: unlocated first
                 St(2, 7, 0, Pool[3], TRUE, "far"), St(1, 8, 0, Pool[3], TRUE, "dup") >>,       \* airborne odd: located first
    push |-> FixedPush(2)],
   [w |-> 120, nrx |-> 3, via |-> "toml", df_present |-> FALSE, df_list |-> <<>>, ac_present |-> FALSE, ac_list |-> <<>>,
-   chunk |-> <<"whole", "k7", "whole">>, ref |-> <<"48.7,2.38", "", "43.6,1.36">>,
+   chunk |-> <<"whole", "k7", "whole">>, ref |-> <<Ref(0, 36820000), NoRef, Ref(48700000, 2380000)>>,
    steps |-> << St(2, 1, 0, Pool[23], TRUE, "zero"), St(1, 2, 0, Pool[23], TRUE, "dup"), St(3, 3, 2, Pool[23], TRUE, "dup"),
                 St(3, 4, 0, Pool[5], TRUE, "far"), St(2, 5, 4, Pool[5], TRUE, "dup"),
                 St(2, 6, 0, Pool[6], TRUE, "far"), St(3, 7, 0, Pool[6], TRUE, "dup") >>,
-   push |-> FixedPush(3)] >>
+   push |-> FixedPush(3)],
+  [w |-> 40, nrx |-> 1, via |-> "cli", df_present |-> TRUE, df_list |-> <<22>>, ac_present |-> FALSE, ac_list |-> <<>>,
+   chunk |-> <<"whole">>, ref |-> <<NoRef>>,
+   steps |-> << St(1, 1, 0, Pool[1], TRUE, "zero"), St(1, 2, 0, Pool[9], TRUE, "mid"), St(1, 3, 0, Pool[17], TRUE, "far") >>,
+   push |-> FixedPush(1)],
+  [w |-> 40, nrx |-> 1, via |-> "toml", df_present |-> TRUE, df_list |-> <<1, 2>>, ac_present |-> FALSE, ac_list |-> <<>>,
+   chunk |-> <<"whole">>, ref |-> <<Ref(51477900, 0)>>,
+   steps |-> << St(1, 1, 0, Pool[4], TRUE, "zero"), St(1, 2, 0, Pool[11], TRUE, "far") >>,
+   push |-> FixedPush(1)],
+  [w |-> 120, nrx |-> 2, via |-> "cli", df_present |-> FALSE, df_list |-> <<>>,
+   ac_present |-> TRUE, ac_list |-> <<4221840, 16384257, 16384258, 16384259, 16384513, 16384514, 16384515>>,
+   chunk |-> <<"whole", "whole">>, ref |-> <<NoRef, NoRef>>,
+   steps |-> << St(1, 1, 0, Pool[4], TRUE, "zero"), St(2, 2, 0, Pool[9], TRUE, "dup"),      \* DF17 485020, DF20 4243d0: hidden
+                St(1, 3, 0, Pool[1], TRUE, "far"), St(2, 4, 0, Pool[1], TRUE, "dup"),       \* DF17 406b90: kept
+                St(1, 5, 0, Pool[7], TRUE, "far"), St(1, 6, 1, Pool[1], TRUE, "far") >>,
+   push |-> FixedPush(2)] >>
 ASSUME Env("GEN_FIXED", 0) = 1 => \A x \in 1..Len(Fixed) : PrintT(ToJson(Fixed[x]))
 
 VARIABLES gw, gnrx, gvia, gdfc, gacc, gchunk, gref, gn, gsteps, gpend, gdone
@@ -211,9 +237,10 @@ DfClass == FilterClasses[gdfc]
 AcClass == FilterClasses[gacc]
 DfList == CASE DfClass = "some" -> {ShownDF(Payload(gsteps[x].fr)) : x \in {y \in DecSteps : y % 2 = 1}} \cup {17}
             [] DfClass = "other" -> {19}
+            [] DfClass = "unknown" -> {1, 22, 31}          \* values no downlink format has: nothing is kept
             [] OTHER -> {}
 AcList == CASE AcClass = "some" -> {AddrOf(Payload(gsteps[x].fr)) : x \in {y \in DecSteps : y % 2 = 1}} \cup PushAddrs
-            [] AcClass = "other" -> {16395}
+            [] AcClass \in {"other", "unknown"} -> {16395}
             [] OTHER -> {}
 Scenario ==
   [w |-> WBag[gw], nrx |-> gnrx, via |-> gvia,
